@@ -354,8 +354,38 @@ def subseq(small, big):
     return all(any(x == y for y in it) for x in small)
 
 
+def wrap_pi(v):
+    while v > math.pi:
+        v -= 2 * math.pi
+    while v <= -math.pi:
+        v += 2 * math.pi
+    return v
+
+
 def on_segment(sc, x, a, b, tol):
     """parameter of x on segment a-b (positions), or None if farther than tol from it"""
+    if sc.kind == "pm":
+        # the heading is interpolated along the SHORTER arc (SO(2)): states the routines SAMPLE (perturbPath) have headings anywhere in
+        # (-pi, pi], so a validated motion can wrap through +-pi; unwrap the motion and try the point's heading modulo 2 pi
+        b2 = (b[0], b[1], a[2] + wrap_pi(b[2] - a[2]))
+        for k in (0, -1, 1):
+            t_ = on_segment_lin(sc, (x[0], x[1], x[2] + 2 * math.pi * k), a, b2, tol)
+            if t_ is not None:
+                return t_
+        return None
+    return on_segment_lin(sc, x, a, b, tol)
+
+
+def seg_hits_box_sc(sc, a, b, lo, hi, margin):
+    """seg_hits_box in the scenario's geometry: for the pseudo-metric kind the heading runs along the shorter arc and the box's heading
+    range is meant modulo 2 pi"""
+    if sc.kind != "pm":
+        return seg_hits_box(a, b, lo, hi, sc.pdim, margin)
+    b2 = (b[0], b[1], a[2] + wrap_pi(b[2] - a[2]))
+    return any(seg_hits_box(a, b2, (lo[0], lo[1], lo[2] + 2 * math.pi * k), (hi[0], hi[1], hi[2] + 2 * math.pi * k), 3, margin) for k in (0, -1, 1))
+
+
+def on_segment_lin(sc, x, a, b, tol):
     pd = sc.pdim
     ab = [b[i] - a[i] for i in range(pd)]
     L2 = sum(v * v for v in ab)
@@ -436,7 +466,7 @@ def oracle(sc, routine, line, res, objective, goals_used):
             # independent re-validation: a motion that passed the discrete check never enters a box by more than the
             # check's spacing; neither does any piece of it
             for lo, hi in sc.boxes:
-                if seg_hits_box(x, y, lo, hi, sc.pdim, margin):
+                if seg_hits_box_sc(sc, x, y, lo, hi, margin):
                     fails.append(("revalidate", "output motion %d crosses an obstacle (deeper than the checking resolution)" % i))
                     break
             if sc.oneway and y[0] > x[0] + 1e-9 and min(x[1], y[1]) <= sc.oneway[1] - 1e-9 and max(x[1], y[1]) >= sc.oneway[0] + 1e-9:
@@ -2000,7 +2030,8 @@ def run(ck):
                        "interpolated states (path length, mechanical work over a linear field, `lin` = cost integral over a linear field, `wreg` = length weighted by an "
                        "expensive region in closed form) and for findBetterGoal under every objective; for clearance / non-linear cost-integral objectives a cut point "
                        "changes the objective's own discretisation: those runs are held to endpoints + validated motions",
-                       "pseudo-metric scenarios keep headings within +-1.45 rad so that SO(2) interpolation is linear and the oracle's geometry is that of R^3",
+                       "pseudo-metric scenarios: INPUT headings lie within +-1.45 rad; states the routines sample themselves have any heading, so the oracle's "
+                       "geometry follows SO(2)'s shorter-arc interpolation (motions unwrapped, points and obstacle heading ranges taken modulo 2 pi)",
                        "randomised routines: trace conformance on the explored seeds only"]
     ck.lean_build(LEAN_TARGETS)
     ck.audit(roots=["Drv.PathOps"])
